@@ -31,5 +31,22 @@ Proof.
   { intros j l Hj Hl. exact (mgs_gives_arnoldi_equations N m A V H Wk W0 Ws Vn j l Hj Hl). }
   exact (gmres_cycle_minimises N m A V H W Rm b x0 e1b L Hz St Or W1 W2 WR LR y y' Hy).
 Qed.
+(* ... in particular a cycle never increases the residual: y' = 0 is a competitor, x0 + V_m 0 = x0 (the restart residual is the previous one) *)
+Theorem C04_generated_cycle_does_not_increase_the_residual N m (A V H : qmat RR) Wk rho (b x0 e1b W Rm y : qmat RR) :
+  gen_cycle_equations N m A V H Wk rho b x0 e1b ->
+  meq (S m) (S m) (qmm (S m) W (qherm W)) qmid -> meq (S m) (S m) (qmm (S m) (qherm W) W) qmid ->
+  meq (S m) m (qmm (S m) W Rm) H -> (forall j, j < m -> Rm m j = qzero) ->
+  meq m 1 (qmm m Rm y) (qmm (S m) (qherm W) e1b) ->
+  (cycle_residual2 N m A V b x0 y <= frob2 N 1 (qmsub b (qmm N A x0)))%R.
+Proof.
+  intros G W1 W2 WR LR Hy.
+  pose proof (C04_generated_cycle_minimises N m A V H Wk rho b x0 e1b W Rm y (fun _ _ => qzero) G W1 W2 WR LR Hy) as M.
+  assert (E : meq N 1 (qmsub b (qmm N A (qmadd x0 (qmm m V (fun _ _ => qzero))))) (qmsub b (qmm N A x0))).
+  { assert (Z : meq N 1 (qmadd x0 (qmm m V (fun _ _ => qzero))) x0).
+    { intros i j _ _. unfold qmadd, qmm. rewrite (sumQ_ext RR m _ (fun _ => qzero)); [rewrite (sumQ_zero RR)|intros]; apply qeq; cbn [qadd qmul qzero qw qx qy qz]; cbn [car c0 cadd cmul csub RR]; ring. }
+    rewrite Z. reflexivity. }
+  unfold cycle_residual2 in M at 2. rewrite (frob2_meq RR N 1 _ _ E) in M. exact M.
+Qed.
 Print Assumptions C04_generated_cycle_is_an_arnoldi_process.
 Print Assumptions C04_generated_cycle_minimises.
+Print Assumptions C04_generated_cycle_does_not_increase_the_residual.
